@@ -50,6 +50,7 @@ struct System {
   std::vector<std::string> frozen;
   // optional hook run after every assignment change (e.g. re-derive dependent parameters)
   std::function<void(Params&)> derive;
+  std::vector<std::string> extra_props;  // further properties its expectations are tagged with (e.g. C07 gradients)
   int max_dev_quick, max_dev_thorough;
   System() : dim(1), max_dev_quick(1), max_dev_thorough(2) {}
 };
